@@ -28,6 +28,11 @@ func runC15(p *core.Program, r *core.Report) {
 	// R6: the rewriting of nested paths happens for every name the namer hands out (shared with C11.R6 / C03.R9)
 	namerRewriteRule(p, r, "R6")
 	c15R5(p, r)
+	// R7: "registers exactly those packages" under names that stay what was rendered: a binding of the tracker is made
+	// once, only when both the path and the name are free, and never removed or changed afterwards (C03.R4)
+	chainRules(p, r, "R7", "C03", []string{"C03.R4"}, "an import binding is made once and never changed")
+	// R8: a reference given as text reaches the naming system whenever it parses as one (C03.R16)
+	chainRules(p, r, "R8", "C03", []string{"C03.R16"}, "text is written as it is only when it does not parse as a reference")
 }
 
 // depthCounterRule checks the bracket splitter found in fn.
@@ -39,8 +44,22 @@ func c15R1(p *core.Program, r *core.Report) {
 		r.Anchor(rule, "pkg/types.ParseTypeRef")
 		return
 	}
+	fn = flatten(p, fn) // the scan may sit in an unexported helper
 	info := fn.Info()
 	sw, clauses := switchOnConsts(info, fn.Body, '[', ']', ',')
+	if sw == nil {
+		// the scan as a pass of its own: an unexported function of the package that ParseTypeRef calls
+		for _, c := range core.Calls(fn.Body, true) {
+			h := p.FuncOfObj(core.CalleeFunc(info, c))
+			if h == nil || h.Pkg != fn.Pkg || h.Decl == nil || h.Decl.Name.IsExported() || h.Body == nil {
+				continue
+			}
+			if s2, c2 := switchOnConsts(h.Info(), h.Body, '[', ']', ','); s2 != nil {
+				fn, info, sw, clauses = h, h.Info(), s2, c2
+				break
+			}
+		}
+	}
 	if sw == nil {
 		r.Anchor(rule, "switch over a rune with cases '[', ']' and ',' in ParseTypeRef")
 		return
@@ -119,6 +138,28 @@ func c15R1(p *core.Program, r *core.Report) {
 			"the split executes only when the depth counter equals 0",
 			"the split of an argument at ',' is not guarded by `depth == 0` on the counter maintained by the '[' / ']' arms")
 	}
+	// ... or, when scanning is a pass of its own, the cut itself: a piece `s[started:i]` appended to the list of pieces
+	ast.Inspect(comma, func(n ast.Node) bool {
+		as, isAs := n.(*ast.AssignStmt)
+		if !isAs || len(as.Rhs) != 1 {
+			return true
+		}
+		ac, isCall := ast.Unparen(as.Rhs[0]).(*ast.CallExpr)
+		if !isCall || core.CalleeName(info, ac) != "builtin.append" || len(ac.Args) != 2 {
+			return true
+		}
+		if _, isSlice := ast.Unparen(ac.Args[1]).(*ast.SliceExpr); !isSlice {
+			return true
+		}
+		splitCalls++
+		facts := g.FactsAt(g.PointOf(as))
+		ok := factHolds(facts, true, func(f cfgxFact) bool { return isZeroTest(info, f.Cond, open, true) }) ||
+			factHolds(facts, false, func(f cfgxFact) bool { return isZeroTest(info, f.Cond, open, false) })
+		r.Check(ok && open != nil, rule, fn, "case ',': split guarded by depth == 0", as.Pos(),
+			"the cut executes only when the depth counter equals 0",
+			"the cut of an argument at ',' is not guarded by `depth == 0` on the counter maintained by the '[' / ']' arms")
+		return true
+	})
 	if splitCalls == 0 {
 		r.Unknown(rule, fn, "case ',': split call", comma.Pos(), "no call of the local split closure found in the ',' arm")
 	}
@@ -199,6 +240,7 @@ func c15R2(p *core.Program, r *core.Report) {
 		r.Anchor(rule, "pkg/types.(*TypeRef).String / ParseTypeRef")
 		return
 	}
+	rd = flatten(p, rd)
 	// every constant piece of text the printer can emit, however it is put together (builder writes,
 	// concatenation, strings.Join separator): the set of its bytes is the printer's delimiter set
 	written := printerDelimiters(w)
@@ -209,6 +251,19 @@ func c15R2(p *core.Program, r *core.Report) {
 	// reader side: Index "[", LastIndex "]", LastIndex ".", switch cases
 	info := rd.Info()
 	_, clauses := switchOnConsts(info, rd.Body, '[', ']', ',')
+	if clauses == nil {
+		// the scan as a pass of its own (see R1)
+		for _, c := range core.Calls(rd.Body, true) {
+			h := p.FuncOfObj(core.CalleeFunc(info, c))
+			if h == nil || h.Pkg != rd.Pkg || h.Decl == nil || h.Decl.Name.IsExported() || h.Body == nil {
+				continue
+			}
+			if _, c2 := switchOnConsts(h.Info(), h.Body, '[', ']', ','); c2 != nil {
+				clauses = c2
+				break
+			}
+		}
+	}
 	idx := constArgsOf(info, rd.Body, "strings.Index", "strings.IndexByte", "strings.IndexRune", "strings.Cut")
 	last := constArgsOf(info, rd.Body, "strings.LastIndex", "strings.LastIndexByte")
 	okReader := clauses != nil && strings.Join(idx, "") == "[" && strings.Join(last, "") == ".]"
